@@ -9,6 +9,7 @@ import Drv
 structure DState where
   topic : Drv.Topic.St := {}
   session : Drv.Session.St := {}
+  broker : Drv.Broker.St := {}
 
 def dispatch (st : DState) (line : String) : DState × String :=
   let toks := (line.splitOn " ").filter (· ≠ "")
@@ -17,6 +18,10 @@ def dispatch (st : DState) (line : String) : DState × String :=
   | "tree" :: rest =>
     match Drv.Topic.handle st.topic rest with
     | some (t, out) => ({ st with topic := t }, out)
+    | none => (st, "bad-op")
+  | "br" :: rest =>
+    match Drv.Broker.handle st.broker rest with
+    | some (t, out) => ({ st with broker := t }, out)
     | none => (st, "bad-op")
   | "sess" :: rest =>
     match Drv.Session.handle st.session rest with
